@@ -2,6 +2,11 @@
 # Build the framework from files on disk only (offline).
 set -e
 cd "$(dirname "$0")"
+export CARGO_NET_OFFLINE=true
 cp /repo/Cargo.lock harness/Cargo.lock
+cp /repo/Cargo.lock macroharness/Cargo.lock
+python3 tools/translate_tuples.py
+python3 tools/translate_locks.py
 (cd lean && lake build Unimock driver)
-(cd harness && CARGO_NET_OFFLINE=true cargo build --offline 2>&1 | tail -3)
+(cd harness && cargo build --offline 2>&1 | tail -3)
+(cd macroharness && cargo build --offline 2>&1 | tail -3)
